@@ -24,7 +24,10 @@
 #include <string.h>
 #include <errno.h>
 #include "verif.h"
-#define ENV_PROP "C10"
+#ifndef ENV_PROP
+#define ENV_PROP "C10"	/* harness/C05/xattr_value.c re-uses this file */
+#endif
+#define XV(s) ENV_PROP ".xattr." s
 #define ENV_NO_MEM_OVERRIDE
 #include "C10/rd_env.h"
 #include "C10/mr_contract.h"
@@ -68,7 +71,7 @@ void harness(void)
 	ret = sqfs_xattr_reader_read_value(xr, &key, &val);
 
 	if (ret == 0) {
-		VERIF_ASSERT(!g_mrc.failed && val != NULL, "C10.xattr.fail_reported");
+		VERIF_ASSERT(!g_mrc.failed && val != NULL, XV("fail_reported"));
 		if (ool) {
 			sqfs_u64 ref = g_mrc.r[1].val;
 
@@ -79,35 +82,35 @@ void harness(void)
 					xr->xattr_start + (ref >> 16) &&
 				     g_mrc.s[0].to.off == (ref & 0xFFFF) &&
 				     g_mrc.s[0].to.block < xr->xattr_end,
-				     "C10.xattr.detour_target");
+				     XV("detour_target"));
 			VERIF_ASSERT(g_mrc.s[1].seq == g_mrc.ops && g_mrc.s[1].ret == 0 &&
 				     g_mrc.s[1].to.block == g_mrc.r[1].after.block &&
 				     g_mrc.s[1].to.off == g_mrc.r[1].after.off &&
 				     g_mrc.pos_valid &&
 				     g_mrc.pos.block == g_mrc.r[1].after.block &&
 				     g_mrc.pos.off == g_mrc.r[1].after.off,
-				     "C10.xattr.pos_restored");
+				     XV("pos_restored"));
 			VERIF_ASSERT(g_mrc.r[2].n == 4 &&
 				     val->size == (sqfs_u32)g_mrc.r[2].val &&
 				     g_mrc.r[3].buf == (void *)val->value &&
 				     g_mrc.r[3].n == val->size,
-				     "C10.xattr.value_source");
+				     XV("value_source"));
 		} else {
 			VERIF_ASSERT(g_mrc.seeks == 0 && g_mrc.reads == 2 && g_mrc.pos_valid &&
 				     g_mrc.pos.block == g_mrc.r[1].after.block &&
 				     g_mrc.pos.off == g_mrc.r[1].after.off,
-				     "C10.xattr.inline_no_seek");
+				     XV("inline_no_seek"));
 			VERIF_ASSERT(g_mrc.r[0].n == 4 &&
 				     val->size == (sqfs_u32)g_mrc.r[0].val &&
 				     g_mrc.r[1].buf == (void *)val->value &&
 				     g_mrc.r[1].n == val->size,
-				     "C10.xattr.value_source");
+				     XV("value_source"));
 		}
 	} else {
-		VERIF_ASSERT(val == NULL, "C10.xattr.fail_reported");
+		VERIF_ASSERT(val == NULL, XV("fail_reported"));
 	}
 	if (g_mrc.failed)
-		VERIF_ASSERT(ret != 0, "C10.xattr.fail_reported");
+		VERIF_ASSERT(ret != 0, XV("fail_reported"));
 
 	VERIF_COVER(ret == 0 && ool);
 	VERIF_COVER(ret == 0 && !ool && val->size > 100);
